@@ -181,6 +181,10 @@ def run(ctx, rep):
     rep.rule("R08-LOADHASH", "Deserialize for SerializableProgram accepts an entry on the hash of the decoded program's own re-encoding (to_cbor), for each Plutus version", floor=3)
     rep.guarded("R08-PAYLOAD", lambda: r_payload(sh, rep))
     rep.guarded("R08-LOADHASH", lambda: r_loadhash(sh, rep))
+    # load -> apply -> save must leave bystander validators byte-identical: the write-back selects by key equality (rule owned by C18)
+    from . import c18
+    rep.rule("R18-OVERWRITE", "Blueprint::apply_parameter overwrites exactly the validators whose key equals the applied one's (shared with C18)", floor=3)
+    rep.guarded("R18-OVERWRITE", lambda: c18.r_overwrite(sh, rep))
     rep.rule("R08-DERIVED", "the published hash is computed from the code in the same call; no stored hash; to_hex/to_cbor/flat chain mirrored by from_*", floor=6)
     rep.guarded("R08-TERM", lambda: r_term(sh, rep))
     rep.guarded("R08-CONST", lambda: r_const(sh, rep))
